@@ -116,6 +116,11 @@ class SimMDP(AbstractEnv):
                     [("id", Box(-OBS_BOUND, OBS_BOUND, shape=(1,))), ("feat", Box(-OBS_BOUND, OBS_BOUND, shape=(D - 1,)))]
                 )
             )
+        elif obs_kind == "dictwide":
+            # one string key per component: the flattening order of the keys matters for every MLP policy
+            self.observation_space = Dict(
+                OrderedDict([("id", Box(-OBS_BOUND, OBS_BOUND, shape=(1,)))] + [(WIDE_KEYS[j], Box(-OBS_BOUND, OBS_BOUND, shape=(1,))) for j in range(D - 1)])
+            )
         elif obs_kind == "tuple":
             self.observation_space = Tuple(
                 (Box(-OBS_BOUND, OBS_BOUND, shape=(1,)), Box(-OBS_BOUND, OBS_BOUND, shape=(D - 1,)))
@@ -202,6 +207,8 @@ class SimMDP(AbstractEnv):
             return v
         if self.obs_kind == "dict":
             return OrderedDict([("id", v[:1]), ("feat", v[1:])])
+        if self.obs_kind == "dictwide":
+            return OrderedDict([("id", v[:1])] + [(WIDE_KEYS[j], v[j + 1 : j + 2]) for j in range(v.shape[0] - 1)])
         if self.obs_kind == "tuple":
             return (v[:1], v[1:])
         return state.s
@@ -238,6 +245,9 @@ class SimMDP(AbstractEnv):
 
     def render(self, state, renderer):
         raise NotImplementedError
+
+
+WIDE_KEYS = ["velocity", "angle", "tip", "goal", "x", "contact", "phase", "aux"]
 
 
 def obs_id(obs) -> Int[Array, ""]:
